@@ -7,6 +7,9 @@
  * Requests (one per line):
  *   ren <hexline> <order> <td> <lim>     all ren_* observables + dir_context/dir_reorder + the matcher trace
  *   dir <hexline> <order> <td> <lim>     only dir_context / dir_match / dir_reorder + the matcher trace (long lines of C18)
+ *                                        both print `rord=`: the order array ren_position() itself laid the line out with
+ *                                        (what its own call of dir_reorder left in the array; the identity when
+ *                                        ren_position did not call it: order 0, the line over linelimit, ASCII with order 1)
  *   shape <hexline> <xshape>             uc_shape / ren_translate of every character of the line
  *   wsweep <lo> <hi>                     width classes of every code point lo..hi
  *   wclass <lo> <hi>                     the same function of every code point lo..hi, printed as maximal runs
@@ -17,7 +20,12 @@
 #include "vi.h"
 int probe_rset_find(struct rset *re, char *s, int n, int *grps, int flg);
 #include "uc.c"
+/* ren.c's own call of dir_reorder (in ren_position_reorder) goes through a wrapper that keeps a copy of the
+ * array: whether ren_position() reorders a line at all -- the linelimit / order gate -- is an observable */
+void probe_ren_dir_reorder(char *s, int *ord);
+#define dir_reorder probe_ren_dir_reorder
 #include "ren.c"
+#undef dir_reorder
 #define rset_find probe_rset_find
 #include "dir.c"
 #undef rset_find
@@ -41,6 +49,19 @@ int probe_rset_find(struct rset *re, char *s, int n, int *grps, int flg)
 	for (i = 0; i < cap_n * 2; i++)
 		cap_subs[i] = r >= 0 && grps ? grps[i] : -1;
 	return r;
+}
+
+static int rr_calls, rr_n, *rr_ord;
+
+void probe_ren_dir_reorder(char *s, int *ord)
+{
+	int n = uc_slen(s);
+	dir_reorder(s, ord);
+	rr_calls++;
+	free(rr_ord);
+	rr_ord = malloc((n + 1) * sizeof(rr_ord[0]));
+	memcpy(rr_ord, ord, n * sizeof(rr_ord[0]));
+	rr_n = n;
 }
 
 static int enc(unsigned c, char *d)		/* the probe's own encoder */
@@ -137,6 +158,19 @@ static void do_ren(char *hex, int order, int td, int lim, int full)
 	dir_reorder(s, ord);
 	ilist("ord", ord, n);
 	free(ord);
+	/* the order ren_position() itself uses: its own dir_reorder call, if it makes one */
+	rr_calls = 0;
+	pos = ren_position(s);
+	printf(" rord=");
+	if (rr_calls == 1 && rr_n == n)
+		for (i = 0; i < n; i++)
+			printf("%d,", rr_ord[i]);
+	else if (rr_calls == 0)
+		for (i = 0; i < n; i++)
+			printf("%d,", i);
+	else
+		printf("CALLS%d", rr_calls);
+	free(pos);
 	if (!full) {
 		printf("\n");
 		free(chrs);
